@@ -168,8 +168,60 @@ let run_sstcp kind key ikeys users mode own_salt addr now ops =
   ) (String.split_on_char ';' ops) in
   String.concat " | " (List.filter_map (fun x -> x) outs)
 
+(* generic: feed 'D' segments through the Framed contract model around a decoder closure *)
+let run_ops (dec : 'st -> n list -> (('st * n list) * 'it option) res) (st0 : 'st) (show : 'it -> string) (ops : string) : string =
+  let st = ref st0 and buf = ref [] and dead = ref false in
+  let outs = List.filter_map (fun op ->
+    if op = "" then None else
+    if !dead then Some "SKIP" else
+    let arg = String.sub op 1 (String.length op - 1) in
+    let (((s', b'), items), fs) = feed dec !st !buf (unhex arg) in
+    let its = String.concat "," (List.map show items) in
+    match fs with
+    | Waiting -> st := s'; buf := b'; Some (Printf.sprintf "WAIT [%s] rest=%d" its (List.length b'))
+    | _ -> dead := true; Some (Printf.sprintf "%s [%s]" (fstatus_str fs) its)) (String.split_on_char ';' ops) in
+  String.concat " | " outs
+
+let show_inbound = function
+  | ConnectTcp (p, a) -> Printf.sprintf "C:%s:%s" (addr_str a) (hx p)
+  | RelayTcp p -> "T:" ^ hx p
+  | RelayUdp (p, a) -> Printf.sprintf "U:%s:%s" (addr_str a) (hx p)
+
+(* decoders of shape  src -> res (rest * option item)  (stateless) as Framed decoders with unit state *)
+let stateless (f : n list -> ((n list) * 'it option) res) = fun () src ->
+  match f src with Ok (r, it) -> Ok (((), r), it) | Err e -> Err e | Panic -> Panic
+
 let run_case (fields : string list) : string =
   match fields with
+  | "trojsrv" :: pw :: ops :: _ ->
+    let key = trojan_key prims (unhex pw) in
+    run_ops (fun st src -> match trojan_server_decode key st src with
+               | Ok ((st', r), it) -> Ok ((st', r), it) | Err e -> Err e | Panic -> Panic) THeader show_inbound ops
+  | "trojcu" :: ops :: _ ->
+    run_ops (stateless trojan_client_udp_decode) () (fun (p, a) -> addr_str a ^ ":" ^ hx p) ops
+  | "trojenc" :: pw :: cmd :: a :: payload :: rest ->
+    let cmdn = n_of_int (int_of_string cmd) in
+    let head = trojan_client_head prims (unhex pw) cmdn (parse_addr a) in
+    let pl = unhex payload in
+    if cmd = "1" then "OK " ^ hx (head @ pl @ pl)
+    else let pa = parse_addr (List.hd rest) in
+      let pk = trojan_packet_encode pa pl in "OK " ^ hx (head @ pk @ pk)
+  | "trojsenc" :: a :: payload :: _ ->
+    let pl = unhex payload in "OK " ^ hx (trojan_packet_encode (parse_addr a) pl @ pl)
+  | "s5ir" :: ops :: _ -> run_ops (stateless s5_initial_request) () (fun ms -> hx (n_of_int 5 :: n_of_int (List.length ms) :: ms)) ops
+  | "s5cr" :: ops :: _ -> run_ops (stateless s5_command_request) () (fun (c, a) -> Printf.sprintf "%d:%s" (int_of_n c) (addr_str a)) ops
+  | "s5irs" :: ops :: _ -> run_ops (stateless s5_initial_response) () (fun m -> string_of_int (int_of_n m)) ops
+  | "s5crs" :: ops :: _ -> run_ops (stateless s5_command_response) () (fun (c, a) -> Printf.sprintf "%d:%s" (int_of_n c) (addr_str a)) ops
+  | "s5udp" :: d :: _ ->
+    (match s5_udp_decode (unhex d) with
+     | Ok (rest, Some (p, a)) -> Printf.sprintf "OK rest=%d %s:%s" (List.length rest) (addr_str a) (hx p)
+     | Ok (rest, None) -> Printf.sprintf "OK rest=%d none" (List.length rest)
+     | Err e -> "ERR " ^ string_of_err e | Panic -> "PANIC")
+  | "s5udpenc" :: a :: p :: _ -> "OK " ^ hx (s5_udp_encode (unhex p) (parse_addr a))
+  | "http" :: m :: t :: _ ->
+    (match recognize_http (unhex m) (unhex t) with
+     | Ok (PHttp a) -> "OK H " ^ addr_str a | Ok (PHttps a) -> "OK S " ^ addr_str a
+     | Err _ -> "ERR" | Panic -> "PANIC")
   | "sstcp" :: kind :: key :: ikeys :: users :: mode :: salt :: addr :: now :: ops :: _ -> run_sstcp kind key ikeys users mode salt addr now ops
   | "s5enc" :: a :: _ -> let a = parse_addr a in Printf.sprintf "OK %s %d" (hx (s5_encode a)) (int_of_n (s5_length a))
   | "s5dec" :: b :: _ -> show_res (fun (a, rest) -> addr_str a ^ " " ^ hx rest) (s5_decode (unhex b))
